@@ -618,7 +618,10 @@ def run_parallel(ctx, argv, lines, timeout, jobs=None):
                 k = nxt[0]; nxt[0] += 1
             if k >= len(chunks):
                 return
-            res[k] = ctx.run_lines(argv, chunks[k][1], timeout=timeout)
+            try:
+                res[k] = ctx.run_lines(argv, chunks[k][1], timeout=timeout)
+            except Exception as e:          # e.g. the executable vanished: attribute to every line of the chunk
+                res[k] = ['CRASH:-1:%s' % str(e)[:200]] * len(chunks[k][1])
     ths = [threading.Thread(target=work) for _ in range(jobs)]
     for t in ths: t.start()
     for t in ths: t.join()
@@ -794,7 +797,7 @@ def run(ctx):
         'completeness of the witness family (no component of an intersection escapes every node, sub-edge midpoint and side point) is the planar-arrangement argument: NOT proved; '
         'it is backed by the agreement of the oracle with the expected matrices of the repository relate XML corpus and with the implementation on every generated pair',
         'eps = 2^-200 for the side points: adequacy for |ordinate| <= 2^25 is argued in ArrangementDefs.v (not machine checked); what is checked on every pair is side_ok '
-        '(no side point lies on linework, so every dimension-2 claim is sound whatever eps is)',
+        '(no side point lies on linework, so every dimension-2 claim is sound whatever eps is) and eps_ok (the path from the sub-edge midpoint to the side point meets no ring segment)',
         'geometry collections whose polygons overlap or share boundary segments (RelateNG union semantics) are outside the oracle: such pairs are skipped and counted',
         'validity of the inputs is decided by the extracted Lib/ValidDefs (C05), not by the implementation']
     ok_build = ctx.build_repo('rel')
@@ -809,6 +812,24 @@ def run(ctx):
     if not ok_build or not ctx.cxx(os.path.join(ROOT, 'harness/c01.c'), hexe, 'rel') or not drv:
         return
     rng = random.Random(ctx.seed)
+    if ctx.replay:
+        import json
+        rp = json.load(open(ctx.replay))
+        src = rp.get('minimised') or rp
+        gr = to_grid([parse_wkt(src['A']), parse_wkt(src['B'])])
+        if gr is None:
+            ctx.log('replay: the pair is not on a grid'); return
+        c = Case('replay', gr[1][0], gr[1][1], gr[0], 'est')
+        evaluate(ctx, [c], drv, hexe, rng, timeout=600)
+        ctx.log('oracle        : ' + (c.model or ''))
+        ctx.log('implementation: ' + (c.impl or ''))
+        bad = compare(ctx, c)
+        for _, msg in bad:
+            ctx.log('DISAGREE: ' + msg)
+        if bad and not int(parse_out(c.model or '').get('fragile', '0')):
+            ctx.violation('replay', dict(A=src['A'], B=src['B'], implementation=c.impl, oracle=c.model, why=[m_ for _, m_ in bad]), msg=bad[0][1])
+        ctx.count((src['A'], src['B']), True)
+        return
     n = 5000 if ctx.quick else 60000
     cases = corpus_cases()
     # ---- XML corpus
@@ -864,7 +885,7 @@ def run(ctx):
         M = m['M'].split(',')
         nontriv = M[0][:2] + M[0][3:5] != 'FFFF'
         ctx.count((wa, wb), nontriv)
-        kk = c.kind.split(':')[0] if c.kind.startswith('xml') else c.kind
+        kk = c.kind.split(':')[0] if c.kind.startswith(('xml', 'corpus')) else c.kind
         dist['kind'][kk] = dist['kind'].get(kk, 0) + 1
         dist['dims'][m['dims']] = dist['dims'].get(m['dims'], 0) + 1
         dist['matrices'][M[0]] = dist['matrices'].get(M[0], 0) + 1
@@ -873,6 +894,8 @@ def run(ctx):
         # ---- the oracle's own certificates
         if m.get('sideok') != '1':
             ctx.broken.append(dict(kind='oracle', name='side witness not open (eps too large for this input?)', detail=c.model_line()[:600]))
+        if m.get('epsok') != '1':
+            ctx.broken.append(dict(kind='oracle', name='path to a side witness not certified clear of ring segments (eps too large for this input?)', detail=c.model_line()[:600]))
         pr = parse_out(c.proto or '')
         if 'EV' in pr:
             dist['protocol_checked'] = dist.get('protocol_checked', 0) + 1
